@@ -1,13 +1,13 @@
-import G3D.Proofs.KernelsTie
-import G3D.Proofs.KernelsTieReal
+import G3D.Proofs.KTieKinter
+import G3D.Proofs.KTieKinterr
 import G3D.Props.C01
 #print axioms G3D.Props.C01.inter_flat_exact
 #print axioms G3D.Props.C01.inter_flat_none_iff
 #print axioms G3D.Props.C01.inter_flat_no_error
 #print axioms G3D.Props.C01.inter_flat_seg_proper
 #print axioms G3D.Props.C01.inter_flat
-#print axioms G3D.KernelsTie.interLinePlane_tie
-#print axioms G3D.KernelsTie.interLinePlane_guards
-#print axioms G3D.KernelsTie.interLinePlane_paths
-#print axioms G3D.KernelsTieReal.interPlanePlane_tie
-#print axioms G3D.KernelsTieReal.interPlanePlane_path
+#print axioms G3D.KTie.Kinter.interLinePlane_tie
+#print axioms G3D.KTie.Kinter.interLinePlane_guards
+#print axioms G3D.KTie.Kinter.interLinePlane_paths
+#print axioms G3D.KTie.Kinter.interPlanePlane_tie
+#print axioms G3D.KTie.Kinter.interPlanePlane_path
